@@ -141,7 +141,7 @@ def get_imports_for_annotation(anno: Any) -> ImportMap:
         for elem_type in anno.__args__:
             imports.merge(get_imports_for_annotation(elem_type))
         return imports
-    if isinstance(anno, types.GenericAlias):
+    if isinstance(anno, getattr(types, "GenericAlias", ())):
         # `list[X]`, `collections.abc.Sequence[X]` (PEP 585) in the source: rendered as written
         imports.merge(get_imports_for_annotation(anno.__origin__))
         for elem_type in anno.__args__:
